@@ -967,3 +967,253 @@ pub fn teardown() {
     }
     println!("teardown done");
 }
+
+// ------------------------------------------------------------------------------------------------ C04 clone_from
+
+struct CfP {
+    panic_on_drop: Cell<bool>,
+    drops: std::rc::Rc<Cell<u32>>,
+}
+unsafe impl Trace for CfP {
+    fn trace(&self, _: &mut Context<'_>) {}
+}
+impl Finalize for CfP {}
+impl Drop for CfP {
+    fn drop(&mut self) {
+        self.drops.set(self.drops.get() + 1);
+        if self.panic_on_drop.get() {
+            panic!("destructor panics");
+        }
+    }
+}
+
+/// `Clone::clone_from` on `Cc` (whatever its implementation) behaves as `*self = source.clone()`: counts exact in every
+/// outcome, never too low after a caught panic, nothing dropped that still has an owner.
+pub fn clone_from_probe() {
+    alloc::install();
+    let mk = |p: bool| {
+        let d = std::rc::Rc::new(Cell::new(0u32));
+        (Cc::new(CfP { panic_on_drop: Cell::new(p), drops: d.clone() }), d)
+    };
+    let report = |name: &str, problems: Vec<String>| {
+        println!("clonefrom {} {}", name, if problems.is_empty() { "ok".to_string() } else { format!("PROBLEMS:{}", problems.join(";")) });
+    };
+    // 1. distinct allocations, `a` the only owner of the old one
+    {
+        let mut pr = Vec::new();
+        let (mut a, da) = mk(false);
+        let (b, db) = mk(false);
+        let b2 = b.clone();
+        a.clone_from(&b);
+        if !Cc::ptr_eq(&a, &b) { pr.push("not-retargeted".into()); }
+        if b.strong_count() != 3 { pr.push(format!("new-count={}", b.strong_count())); }
+        if da.get() != 1 { pr.push(format!("old-drops={}", da.get())); }
+        if db.get() != 0 { pr.push("new-dropped".into()); }
+        drop(b2);
+        report("distinct", pr);
+    }
+    // 2. same allocation
+    {
+        let mut pr = Vec::new();
+        let (b, db) = mk(false);
+        let mut a = b.clone();
+        a.clone_from(&b);
+        if !Cc::ptr_eq(&a, &b) || b.strong_count() != 2 || db.get() != 0 { pr.push(format!("count={} drops={}", b.strong_count(), db.get())); }
+        report("same", pr);
+    }
+    // 3. the old allocation has another owner
+    {
+        let mut pr = Vec::new();
+        let (mut a, da) = mk(false);
+        let a2 = a.clone();
+        let (b, _db) = mk(false);
+        a.clone_from(&b);
+        if a2.strong_count() != 1 || da.get() != 0 { pr.push(format!("old-count={} old-drops={}", a2.strong_count(), da.get())); }
+        if b.strong_count() != 2 || !Cc::ptr_eq(&a, &b) { pr.push(format!("new-count={}", b.strong_count())); }
+        report("old-shared", pr);
+    }
+    // 4. the destructor of the old value panics: whatever `a` points to afterwards is counted
+    {
+        let mut pr = Vec::new();
+        let (mut a, da) = mk(true);
+        let (b, db) = mk(false);
+        let r = std::panic::catch_unwind(AssertUnwindSafe(|| a.clone_from(&b)));
+        if r.is_ok() { pr.push("no-panic".into()); }
+        if da.get() != 1 { pr.push(format!("old-drops={}", da.get())); }
+        if Cc::ptr_eq(&a, &b) {
+            if b.strong_count() != 2 { pr.push(format!("new-count={}", b.strong_count())); }
+        } else {
+            // still the old pointer: it must still be counted (the box is quarantined by the harness allocator if it was freed)
+            let snap = hooks::snapshot(&a);
+            let v = hooks::counter_apply(snap.tracing_word, snap.counter_word, None);
+            if !alloc::is_live(snap.box_addr) || v.counter == 0 { pr.push(format!("old-pointer-kept-uncounted:count={}", v.counter)); }
+            if b.strong_count() != 1 { pr.push(format!("new-count={}", b.strong_count())); }
+            std::mem::forget(a);
+        }
+        if db.get() != 0 { pr.push("new-dropped".into()); }
+        report("old-destructor-panics", pr);
+    }
+    // 5. the source is saturated: `clone` refuses, nothing else happens
+    {
+        let mut pr = Vec::new();
+        let (mut a, da) = mk(false);
+        let (b, _db) = mk(false);
+        let mut keep = Vec::new();
+        loop {
+            let r = std::panic::catch_unwind(AssertUnwindSafe(|| b.clone()));
+            match r {
+                Ok(c) => keep.push(c),
+                Err(_) => break,
+            }
+            if keep.len() > 40_000 { pr.push("never-saturates".into()); break; }
+        }
+        let max = b.strong_count();
+        let a_addr = hooks::snapshot(&a).box_addr;
+        let r = std::panic::catch_unwind(AssertUnwindSafe(|| a.clone_from(&b)));
+        if r.is_ok() { pr.push("no-panic-at-max".into()); }
+        if b.strong_count() != max { pr.push(format!("source-count={}vs{}", b.strong_count(), max)); }
+        if da.get() != 0 { pr.push(format!("old-drops={}", da.get())); }
+        if hooks::snapshot(&a).box_addr != a_addr { pr.push("retargeted".into()); }
+        else {
+            let snap = hooks::snapshot(&a);
+            let v = hooks::counter_apply(snap.tracing_word, snap.counter_word, None);
+            if v.counter != 1 || !alloc::is_live(a_addr) { pr.push(format!("old-count={}", v.counter)); std::mem::forget(a); }
+        }
+        drop(keep);
+        report("source-saturated", pr);
+    }
+    let events = alloc::with_tracker(|t| t.events.clone()).unwrap_or_default();
+    let bad: Vec<String> = events.iter().filter(|e| e.starts_with('!')).cloned().collect();
+    let t = alloc::take();
+    alloc::release(t);
+    println!("clonefrom allocator {}", if bad.is_empty() { "ok".to_string() } else { format!("PROBLEMS:{}", bad.join(";")) });
+    println!("clonefrom done");
+}
+
+// ------------------------------------------------------------------------------------------------ C01 large buffers
+
+struct BNode {
+    next: RefCell<Option<Cc<BNode>>>,
+    leaf: RefCell<Option<Cc<BNode>>>,
+    canary: Cell<u64>,
+    make_leaf: Cell<bool>,
+}
+unsafe impl Trace for BNode {
+    fn trace(&self, ctx: &mut Context<'_>) {
+        self.next.trace(ctx);
+        self.leaf.trace(ctx);
+    }
+}
+thread_local! {
+    static LEAF_SLOT: RefCell<Option<Cc<BNode>>> = const { RefCell::new(None) };
+}
+static BDROPS: std::sync::atomic::AtomicUsize = std::sync::atomic::AtomicUsize::new(0);
+static BBAD: std::sync::atomic::AtomicUsize = std::sync::atomic::AtomicUsize::new(0);
+impl Finalize for BNode {
+    fn finalize(&self) {
+        if self.make_leaf.get() {
+            // an object created inside a finalizer (it is born "already finalized")
+            LEAF_SLOT.with(|s| *s.borrow_mut() = Some(bnode()));
+        }
+    }
+}
+impl Drop for BNode {
+    fn drop(&mut self) {
+        if self.canary.get() != 0xB16B0F {
+            BBAD.fetch_add(1, std::sync::atomic::Ordering::SeqCst);
+        }
+        self.canary.set(0xDEAD);
+        BDROPS.fetch_add(1, std::sync::atomic::Ordering::SeqCst);
+    }
+}
+fn bnode() -> Cc<BNode> {
+    Cc::new(BNode { next: RefCell::new(None), leaf: RefCell::new(None), canary: Cell::new(0xB16B0F), make_leaf: Cell::new(false) })
+}
+
+/// Collections over buffers of every size (also far above any internal chunk size): objects reachable from program-held
+/// pointers survive intact, whatever their position in the buffer and their finalization state; garbage is reclaimed.
+pub fn bigbuf() {
+    alloc::install();
+    #[cfg(feature = "auto")]
+    let _ = rust_cc::config::config(|c| c.set_auto_collect(false));
+    for n in [4usize, 300, 1100, 2600] {
+        let mut pr: Vec<String> = Vec::new();
+        collect_cycles();
+        let base = rust_cc::state::allocated_bytes().unwrap_or(0);
+        let drops0 = BDROPS.load(std::sync::atomic::Ordering::SeqCst);
+        // a leaf born inside a finalizer
+        let maker = bnode();
+        maker.make_leaf.set(true);
+        drop(maker);
+        let leaf = LEAF_SLOT.with(|s| s.borrow_mut().take()).unwrap_or_else(bnode);
+        let holder = bnode();
+        *holder.leaf.borrow_mut() = Some(leaf);
+        // buffer the leaf first …
+        {
+            let c = holder.leaf.borrow().as_ref().unwrap().clone();
+            drop(c);
+        }
+        // … then `n` live objects (every third one at the end of a short chain, every fifth one on a live cycle) …
+        let mut live = Vec::with_capacity(n);
+        for i in 0..n {
+            let x = bnode();
+            if i % 3 == 0 {
+                *x.next.borrow_mut() = Some(bnode());
+            }
+            if i % 5 == 0 {
+                let y = bnode();
+                *y.next.borrow_mut() = Some(x.clone());
+                *x.leaf.borrow_mut() = Some(y);
+            }
+            let c = x.clone();
+            drop(c);
+            live.push(x);
+        }
+        // … and the holder last
+        {
+            let c = holder.clone();
+            drop(c);
+        }
+        let buffered = rust_cc::state::buffered_objects_count().unwrap_or(0);
+        collect_cycles();
+        collect_cycles();
+        let alive = |c: &Cc<BNode>| {
+            let s = hooks::snapshot(c);
+            alloc::is_live(s.box_addr) && c.canary.get() == 0xB16B0F
+        };
+        if !alive(&holder) {
+            pr.push("holder-dead".into());
+        } else if !holder.leaf.borrow().as_ref().map(alive).unwrap_or(false) {
+            pr.push("leaf-of-live-holder-dead".into());
+        }
+        let dead = live.iter().filter(|c| !alive(c)).count();
+        if dead != 0 {
+            pr.push(format!("live-objects-dead={}", dead));
+        }
+        let d = BDROPS.load(std::sync::atomic::Ordering::SeqCst) - drops0;
+        if d != 1 {
+            pr.push(format!("drops-while-everything-is-reachable={}", d - 1));
+        }
+        if pr.is_empty() {
+            // release everything: all of it is reclaimed
+            drop(live);
+            drop(holder);
+            collect_cycles();
+            collect_cycles();
+            let now = rust_cc::state::allocated_bytes().unwrap_or(0);
+            if now != base {
+                pr.push(format!("leaked-bytes={}", now as i64 - base as i64));
+            }
+        } else {
+            std::mem::forget(live);
+            std::mem::forget(holder);
+        }
+        if BBAD.load(std::sync::atomic::Ordering::SeqCst) != 0 {
+            pr.push("double-drop".into());
+        }
+        println!("bigbuf n={} buffered={} {}", n, buffered, if pr.is_empty() { "ok".to_string() } else { format!("PROBLEMS:{}", pr.join(";")) });
+    }
+    let t = alloc::take();
+    alloc::release(t);
+    println!("bigbuf done");
+}
